@@ -18,6 +18,11 @@ def run(ctx):
     import c08
     scripts = c08.gen_scripts(ctx, "Gen_LoginFlow.cfg")
     c08.run_login(ctx, scripts, "C10", label="every single-edit login reply script: no panic")
+    # ... and so is the logout exchange of Close: whatever package the server answers with, Close returns
+    import os
+    tl = os.path.join(ctx.scratch, "life-logout.ndjson")
+    ctx.run_driver(["life", "-out", tl, "-seed", ctx.seed, "-directed", "-logoutonly"], timeout=600)
+    ctx.validate("", "Trace_Life", "Trace_Life.cfg", tl, label="Close / Conn.Close with a peer that answers the logout with RETURNSTATUS, EED or LOGINACK: no panic, no hang")
     n = kinds = 0
     cls = {"ok": 0, "need": 0, "err": 0, "panic": 0}
     sample = None
